@@ -179,9 +179,9 @@ PROPS['C16'] = dict(
 )
 
 PROPS['C10'] = dict(
-    lean_modules=['Model.Erc20', 'Properties.C10', 'Facts.Erc20', 'Facts.TieErc20', 'Facts.TieMeta'],
+    lean_modules=['Model.Erc20', 'Properties.C10', 'Facts.Erc20', 'Facts.TieErc20', 'Facts.TieErc20Transfer', 'Facts.TieMeta'],
     facts=['*'],
-    theorems=['tie_spend_allowance', 'fact_translated_all', 'C10_views_exact', 'C10_fail_is_noop', 'C10_transfer_exact', 'C10_burn_exact', 'C10_transferFrom_exact', 'C10_burnFrom_exact',
+    theorems=['tie_spend_allowance', 'tie_erc20_transfer', 'tie_erc20_transfer_ok', 'tie_erc20_transfer_fail_no_log', 'fact_uninterpreted', 'fact_translated_all', 'C10_views_exact', 'C10_fail_is_noop', 'C10_transfer_exact', 'C10_burn_exact', 'C10_transferFrom_exact', 'C10_burnFrom_exact',
               'C10_approve_exact', 'C10_full_fails', 'C10_allowance_safety_partial', 'xfer_spec', 'spendAllowance_spec', 'spendIfOther_spec',
               'ghostAgree_step', 'ghostAgree_run', 'spend_needs_allowance',
               'fact_allowance_key', 'fact_erc20_method_table', 'fact_erc20_selectors', 'fact_erc20_views_write_nothing', 'fact_erc20_writes_no_mint'],
